@@ -48,6 +48,13 @@ def run(chk):
         meta[cid] = (src, m)
 
     for i, (ts, tv) in enumerate(REPS):
+        # negation of a logical expression / conditional whose last operation is a comparison (the left operand decides)
+        add("nand%d" % i, "push(__o, !(%s && 1 == 2));" % ts, ("!&&", tv, None))
+        add("nor%d" % i, "push(__o, !(%s || 1 != 2));" % ts, ("!||", tv, None))
+        add("nif%d" % i, "push(__o, !(if %s { 1 == 1 } else { 2 == 3 }));" % ts, ("!if", tv, None))
+        add("nnand%d" % i, "push(__o, !!(%s && 1 != 2));" % ts, ("!!&&", tv, None))
+        add("ifnand%d" % i, "push(__o, if !(%s && 3 == 3) { 1 } else { 2 });" % ts, ("if!&&", tv, None))
+    for i, (ts, tv) in enumerate(REPS):
         add("not%d" % i, "push(__o, !%s);" % ts, ("!", tv, None))
         add("if%d" % i, "push(__o, if %s { 1 } else { 2 });" % ts, ("if", tv, None))
         add("wh%d" % i, "let n = 0; while %s { n = n + 1; break; } push(__o, n);" % ts, ("while", tv, None))
@@ -68,7 +75,19 @@ def run(chk):
         o = canon_dump(g.get("__o"))
         t = canon_dump(g.get("__t"))
         f = falsey(tv)
-        if pos == "!":
+        if pos == "!&&":
+            # v && (1 == 2): v when v is falsey, else false; its negation is true either way ... unless v is falsey: !v = true
+            exp_o, exp_t = ("a", (("bool", True),)), ("a", ())
+        elif pos == "!||":
+            # v || (1 != 2): v when truthy (negation false), else true (negation false)
+            exp_o, exp_t = ("a", (("bool", False),)), ("a", ())
+        elif pos == "!if":
+            exp_o, exp_t = ("a", (("bool", True if f else False),)), ("a", ())
+        elif pos == "!!&&":
+            exp_o, exp_t = ("a", (("bool", not f),)), ("a", ())
+        elif pos == "if!&&":
+            exp_o, exp_t = ("a", (("i", 1 if f else 2),)), ("a", ())
+        elif pos == "!":
             exp_o, exp_t = ("a", (("bool", f),)), ("a", ())
         elif pos == "if":
             exp_o, exp_t = ("a", (("i", 2 if f else 1),)), ("a", ())
